@@ -143,6 +143,10 @@ def check(ctx):
     c02.api_rules(ctx, prog)
     R.c14_bounds(ctx, prog)
     R.c14_tables(ctx, prog)
+    # a source without a process is ignored: none of its four slots is polled (they hold the invalid marker, never descriptor 0),
+    # it is never dereferenced, and a table of absent sources only is "no stream left" (C09.V1, V5)
+    from . import c09
+    c09.poll_rules(ctx, prog)
     # the start path is analysed under "fork mode <=> argv == NULL, otherwise argv[0] != NULL" (it hands argv[0] to strdup / strlen):
     # that is what the validator has to establish for every argument vector the caller may pass (C13.A2o)
     from . import c13
